@@ -1,0 +1,39 @@
+//go:build verif
+
+// Contract for the ring-SIS hash of this field (comment-only). Guards and frame only: Hash returns an error exactly
+// when the output vector does not have Degree entries or the input has more elements than the instance was built
+// for, and then leaves the output untouched; otherwise it zeroes the output before accumulating, finishes with the
+// inverse transform on the instance's own domain applied to the output vector (the reduction modulo X^d + 1), and
+// writes nothing but the output. The limb decomposition and the accumulation of the products (InnerHash, the AVX-512
+// kernels) are opaque calls that overwrite the output: that the digest is the sum of negacyclic products is NOT under
+// contract, and the index operations of the function are not obligations (option index-panics-allowed).
+
+package sis
+
+//@ func RSis.Hash
+//@ tags purego
+//@ layer ring koalabear.Element
+//@ option opaque-calls
+//@ option opaque-writes InnerHash:1 FFTInverse:1 sis512_16_avx512:4 sisUnshuffle_avx512:0
+//@ option index-panics-allowed
+//@ option nomerge
+//@ ghost reduced = false
+//@ cut before call FFTInverse #*
+//@ + invariant[reduction] same(callarg0, r.Domain) && same(callarg1, res)
+//@ cut after call FFTInverse #*
+//@ + ghost reduced = true
+//@ loop 0
+//@ + invariant[zeroed-prefix] -1 <= rangeindex && rangeindex < len(res) && forall(j, 0, rangeindex+1, res[j] == 0)
+//@ loop 1
+//@ + invariant[blocks] 0 <= j && j <= len(v) + 256 && 0 <= polId
+//@ loop 2
+//@ + invariant[padding] 0 <= k && k <= 256
+//@ loop 3
+//@ + invariant[polynomials] 0 <= i && i <= len(r.Ag)
+//@ ensures[output-size] isnil(result) ==> len(res) == r.Degree
+//@ ensures[input-size] isnil(result) ==> len(v) <= r.maxNbElementsToHash
+//@ ensures[refused] !isnil(result) ==> len(res) != r.Degree || len(v) > r.maxNbElementsToHash
+//@ ensures[reduced] isnil(result) ==> reduced
+//@ ensures[untouched-on-error] !isnil(result) ==> forall(j, 0, len(res), res[j] == old(res[j]))
+//@ modifies res
+//@ end
